@@ -79,10 +79,9 @@ func TestVerifReplay(t *testing.T) {
 `
 
 func nativeValidate(repo, hdir, wd string, eng *Engine, results []*HarnessResult, nValidate int) error {
-	ov, err := buildOverlay(repo, hdir)
-	if err != nil {
-		return err
-	}
+	// the overlay the engine analysed (not re-read: harness files may have
+	// been edited since)
+	ov := eng.overlay
 	// harness tables per package
 	tables := map[string][]string{} // pkg dir ("" / time / null) -> names
 	pkgOf := map[string]string{}
@@ -274,6 +273,9 @@ func compareEvents(pred []Event, nr *nativeResult) string {
 		var sb strings.Builder
 		for _, e := range pred {
 			fmt.Fprintf(&sb, " %s(%s)", e.Kind, e.Label)
+			if e.Val != "" && len(e.Val) < 400 {
+				fmt.Fprintf(&sb, "=%s", e.Val)
+			}
 		}
 		return fmt.Sprintf("event count: predicted %d [%s] native %d (%s)", n, sb.String(), len(nr.Events), summarizeEvents(nr))
 	}
